@@ -1,6 +1,7 @@
 (* RoundTripGlue.v — C01: from the writer invariant at finalize to what the reader proofs
    need: bounded well-formed blocks, a well-formed footer, HashMap lookups through any
    iteration order (permutation), list_files. *)
+From MLA Require Import Limit.
 From MLA Require Import Base Stream Blocks Writer Reader RoundTripBlocks RoundTripFooter RoundTripWriter.
 From Coq Require Import ZifyBool ZifyNat ZifyN Permutation.
 Open Scope N_scope.
@@ -67,6 +68,7 @@ Proof.
 Qed.
 
 Section Glue.
+  Context {LIM : Limit}.
   Variable FNMAX : N.
   Variables T_START T_CONTENT T_EOA T_EOF : N.
   Variable H : bytes -> bytes.
